@@ -1,5 +1,5 @@
 import TracklibVerif.Lemmas.TextIOGpx
-import TracklibVerif.Lemmas.TextIOAll
+import TracklibVerif.Lemmas.TextIOAll3
 import TracklibVerif.Lemmas.TextIOGpxAF
 import TracklibVerif.Lemmas.TextIOWktFile
 /-! # C13 — tracks and networks written to file are read back unchanged
@@ -288,12 +288,14 @@ theorem readFromCsv_dir_roundtrip (f : CsvFmt) (geo : Bool) (pf : List Tok) (h :
 and the feature columns `af_names = names` — values of any kind (`AFVal`: int, float on a decimal lattice, str, nan, ±inf)
 whose text is one field of the line (`AFOK`), names that are good fields, distinct and not refused by the track (`NameOK`),
 a separator that is not one of the letters of the column names `E N U X Y Z lon lat h time` — is read back by
-`readFromCsv(..., h=hr, read_all=True)`, for `hr` = 0, 1, 2 (in particular the matching calls `h = hr = 1` and `h = hr = 2`),
-as the same observations, the same feature names in the same order, and for every observation the values `expAF name v`
-(`read_all_values` says what they are). The names are those of the last header line (`#E;N;U;time;af0;…`), which the first
-pass reads as a comment line; the second pass reads the first line raw and the others stripped. (`hr = 3`, where the
-names line is consumed by the header loop with its newline, is covered by correspondence only; `h = 0` writes no names:
-the reader raises UnboundLocalError.) -/
+`readFromCsv(..., h=hr, read_all=True)`, for EVERY reader header count `hr` up to the three header lines written — `hr` = 0, 1,
+2, 3, in particular the matching calls `h = hr` — as the same observations, the same feature names in the same order, and for
+every observation the values `expAF name v` (`read_all_values` says what they are). For `hr ≤ 2` the names are those of the
+last header line (`#E;N;U;time;af0;…`), which the first pass reads as a comment line (stripped); the second pass reads the
+first line raw and the others stripped. For `hr = 3` the names line is consumed by the header loop RAW
+(`line[1:].split(sep)`: the last name carries the newline until the names are stripped), no comment line is left, and the
+second pass meets the first data line raw (its last field carries the newline until the value is stripped).
+(`h = 0` writes no names: the reader raises UnboundLocalError; `hr > 3` eats data lines.) -/
 theorem csv_read_all_roundtrip (f : CsvFmt) (geo : Bool) (pf : List Tok) (h naf : Nat) (rows : List (Row × List AFVal))
     (srid : Str) (names : List Str)
     (hv : ValidIds f) (hsep : numChar f.sep = false) (hnl : f.sep ≠ '\n') (hcol : f.sep ∉ colChars)
@@ -302,10 +304,22 @@ theorem csv_read_all_roundtrip (f : CsvFmt) (geo : Bool) (pf : List Tok) (h naf 
     (hpos : 0 < h) (hne : rows ≠ [])
     (hnames : ∀ n ∈ names, NameOK f.sep n) (hnd : names.Nodup) (hrl : ∀ ra ∈ rows, ra.2.length = names.length) :
     ∃ text, writeToFile f geo pf h naf rows srid names = .ok text ∧
-      ∀ hr, hr ≤ 2 → readCsvAll f pf hr text
+      ∀ hr, hr ≤ 3 → readCsvAll f pf hr text
         = .ok (rows.map (fun ra => expRow f geo pf ra.1), names,
                rows.map (fun ra => (names.zip ra.2).map (fun nv => expAF nv.1 nv.2))) :=
-  TV.TextIO.csv_read_all_roundtrip f geo pf h naf rows srid names hv hsep hnl hcol htime hrows hafs hsrid hpos hne hnames hnd hrl
+  TV.TextIO.csv_read_all_roundtrip3 f geo pf h naf rows srid names hv hsep hnl hcol htime hrows hafs hsrid hpos hne hnames hnd hrl
+
+/-- the hypotheses are satisfiable, and `hr = 3` is not vacuous: two observations, a time column, two feature columns
+(`speed`, and `k&` whose values stay texts), written with `h = 1` and read with `h = 3, read_all=True` -/
+example : ∃ text, writeToFile ⟨0, 1, -1, 2, ';'⟩ false (tokenize "2D/2M/4Y 2h:2m:2s".toList) 1 2
+      [(⟨⟨true, 1500⟩, ⟨false, 2250⟩, ⟨false, 0⟩, ⟨⟨2024, 2, 29, 23, 59, 59⟩, 0⟩⟩, [.dec 1 25, .int 7]),
+       (⟨⟨false, 0⟩, ⟨false, 1⟩, ⟨false, 0⟩, ⟨⟨2000, 1, 1, 0, 0, 0⟩, 0⟩⟩, [.nan, .str "a b".toList])]
+      "ENU".toList ["speed".toList, "k&".toList] = .ok text ∧
+    text = "#srid: ENU\n#ref point: None\n#E;N;time;speed;k&\n-1.500;2.250;29/02/2024 23:59:59;2.5;7\n0.000;0.001;01/01/2000 00:00:00;nan;a b\n".toList ∧
+    (readCsvAll ⟨0, 1, -1, 2, ';'⟩ (tokenize "2D/2M/4Y 2h:2m:2s".toList) 3 text).toOption
+      = some ([⟨(-1500, 3), (2250, 3), (0, 0), ⟨⟨2024, 2, 29, 23, 59, 59⟩, 0⟩⟩, ⟨(0, 3), (1, 3), (0, 0), ⟨⟨2000, 1, 1, 0, 0, 0⟩, 0⟩⟩],
+              ["speed".toList, "k&".toList], [[.num (25, 1), .str "7".toList], [.nan, .str "a b".toList]]) := by
+  refine ⟨_, rfl, ?_, ?_⟩ <;> decide +kernel
 
 /-- `read_all_values`: what `expAF` is. In a column whose name does not end in `&`: an `int` comes back as the float of the
 same value; a float `n / 10^d` of ANY magnitude as the decimal `str()` printed — positionally or, below `1e-4` and from `1e16`,
